@@ -2073,10 +2073,12 @@ def distributed_shampoo(
     return jnp.int8 if best_effort_memory_usage_reduction and len(
         var.shape) > 1 else jnp.float32
 
+  # The int16 second-moment buffers only exist on the pmap path; the sharded
+  # (pjit) path keeps float32 global statistics and preconditioners.
   quantize_second_moment = (
       best_effort_memory_usage_reduction and
       not compression_rank and not frequent_directions and
-      batch_axis_name)
+      batch_axis_name and not shard_optimizer_states)
 
   # Preconditioner and statistics are both stores as int16 in this mode.
   # We take out the diagonal to make quantization easier.
